@@ -670,6 +670,36 @@ func runOps(ops []Op, keys []string, rep int, seed int64) (colls [][]Metric, pee
 	return colls, peek, nil
 }
 
+// viewSig names the class of a view: action and which kinds of criteria it uses.
+func viewSig(v ViewC) string {
+	s := "agg=" + v.Agg
+	if v.Filt.On {
+		s += ",filter"
+	}
+	if v.Name != "" {
+		s += ",rename"
+	}
+	if v.Unit != "" || v.Desc != "" {
+		s += ",mask"
+	}
+	if strings.ContainsAny(v.MName, "*?") {
+		s += ",wild"
+	}
+	if v.MUnit != "" {
+		s += ",unit"
+	}
+	if v.MKind != "" {
+		s += ",kind"
+	}
+	if v.MDesc != "" {
+		s += ",desc"
+	}
+	if v.MSN != "" || v.MSV != "" || v.MSU != "" {
+		s += ",scope"
+	}
+	return s
+}
+
 func cfgSig(c *Cfg) map[string]any {
 	if c == nil {
 		return map[string]any{}
@@ -680,14 +710,7 @@ func cfgSig(c *Cfg) map[string]any {
 	}
 	vs := []string{}
 	for _, v := range c.Views {
-		s := "agg=" + v.Agg
-		if v.Filt.On {
-			s += ",filter"
-		}
-		if v.Name != "" {
-			s += ",rename"
-		}
-		vs = append(vs, s)
+		vs = append(vs, viewSig(v))
 	}
 	return map[string]any{"limit": c.Limit, "temp": c.Temp, "kinds": strings.Join(kinds, ","), "views": strings.Join(vs, ";")}
 }
@@ -785,65 +808,162 @@ func defaultAgg(kind string) string {
 	return "sum"
 }
 
-type streamG struct{ name, kind, num, agg, filt string }
+// ---- generator-side domain filter (advisory): the random driver avoids configurations outside the
+// modelled domain (conflicting stream identities, incompatible aggregations, ...). It decides nothing:
+// Trace_Cardinality.tla re-evaluates InDomain on every Setup and skips what lies outside.
 
-// streams an instrument resolves to (input-domain restriction only: used to discard configurations
-// with conflicting stream identities, on which the statement is silent; Trace_Cardinality re-checks)
+type streamG struct{ id, rkey, agg, filt string }
+
+// wild is a plain recursive wildcard matcher (* = any run of characters, ? = one character).
+func wild(p, s string) bool {
+	if p == "" {
+		return s == ""
+	}
+	if p[0] == '*' {
+		return wild(p[1:], s) || (s != "" && wild(p, s[1:]))
+	}
+	return s != "" && (p[0] == '?' || p[0] == s[0]) && wild(p[1:], s[1:])
+}
+
+func selects(v ViewC, ic InstC) bool {
+	if v.MName == "" && v.MKind == "" && v.MUnit == "" && v.MDesc == "" && v.MSN == "" && v.MSV == "" && v.MSU == "" {
+		return false
+	}
+	return (v.MName == "" || wild(v.MName, ic.Name)) && (v.MKind == "" || v.MKind == ic.Kind) &&
+		(v.MUnit == "" || v.MUnit == ic.Unit) && (v.MDesc == "" || v.MDesc == ic.Desc) &&
+		(v.MSN == "" || v.MSN == ic.SN) && (v.MSV == "" || v.MSV == ic.SV) && (v.MSU == "" || v.MSU == ic.SU)
+}
+
+func nz(a, b string) string {
+	if a != "" {
+		return a
+	}
+	return b
+}
+
 func streamsOf(c Cfg, ic InstC) []streamG {
 	var out []streamG
-	for _, v := range c.Views {
-		if v.MName == "" && v.MKind == "" {
-			continue
+	mk := func(name, desc, unit, agg, filt string) streamG {
+		if agg == "" || agg == "default" {
+			agg = defaultAgg(ic.Kind)
 		}
-		if (v.MName == "" || v.MName == "*" || v.MName == ic.Name) && (v.MKind == "" || v.MKind == ic.Kind) {
-			s := streamG{name: ic.Name, kind: ic.Kind, num: ic.Num, agg: v.Agg}
-			if v.Name != "" {
-				s.name = v.Name
-			}
-			if s.agg == "" || s.agg == "default" {
-				s.agg = defaultAgg(ic.Kind)
-			}
-			if v.Filt.On {
-				k := append([]string{}, v.Filt.Keep...)
-				sort.Strings(k)
-				s.filt = "on:" + strings.Join(k, ",")
-			}
-			out = append(out, s)
+		scope := ic.SN + "|" + ic.SV + "|" + ic.SU
+		return streamG{
+			id:   strings.Join([]string{strings.ToLower(name), desc, unit, ic.Kind, ic.Num, scope}, "\x00"),
+			rkey: strings.Join([]string{strings.ToLower(name), desc, unit, agg, ic.Num, scope}, "\x00"),
+			agg:  agg, filt: filt,
 		}
 	}
+	for _, v := range c.Views {
+		if !selects(v, ic) {
+			continue
+		}
+		filt := ""
+		if v.Filt.On {
+			k := append([]string{}, v.Filt.Keep...)
+			sort.Strings(k)
+			filt = "on:" + strings.Join(k, ",")
+		}
+		out = append(out, mk(nz(v.Name, ic.Name), nz(v.Desc, ic.Desc), nz(v.Unit, ic.Unit), v.Agg, filt))
+	}
 	if len(out) == 0 {
-		out = []streamG{{name: ic.Name, kind: ic.Kind, num: ic.Num, agg: defaultAgg(ic.Kind)}}
+		out = []streamG{mk(ic.Name, ic.Desc, ic.Unit, "", "")}
 	}
 	return out
 }
 
-func conflictFree(c Cfg) bool {
-	seen := map[string]streamG{}
-	for x, a := range c.Insts {
-		for y, b := range c.Insts {
-			if x != y && a.Name == b.Name && (a.Kind != b.Kind || a.Num != b.Num) {
-				return false
-			}
-		}
-	}
+func inDomain(c Cfg) bool {
+	byID := map[string]streamG{}
+	byRKey := map[string]string{}
 	for _, ic := range c.Insts {
 		for _, s := range streamsOf(c, ic) {
-			id := strings.ToLower(s.name) + "/" + s.kind + "/" + s.num
-			if p, ok := seen[id]; ok && (p.agg != s.agg || p.filt != s.filt) {
+			if p, ok := byID[s.id]; ok && (p.agg != s.agg || p.filt != s.filt) {
 				return false
 			}
-			seen[id] = s
+			byID[s.id] = s
+			if o, ok := byRKey[s.rkey]; ok && o != s.id {
+				return false
+			}
+			byRKey[s.rkey] = s.id
+			fits := false
+			for _, a := range compatAggs(ic.Kind) {
+				fits = fits || a == s.agg
+			}
+			if !fits {
+				return false
+			}
 		}
 	}
-	// distinct identities sharing a name would be two metrics with one name: keep names unambiguous
-	names := map[string]string{}
-	for id, s := range seen {
-		if o, ok := names[s.name+"/"+s.num]; ok && o != id {
+	for _, v := range c.Views {
+		if strings.ContainsAny(v.MName, "*?") && v.Name != "" {
 			return false
 		}
-		names[s.name+"/"+s.num] = id
+		for _, ic := range c.Insts {
+			if v.MName != "" && wild(strings.ToLower(v.MName), strings.ToLower(ic.Name)) && !wild(v.MName, ic.Name) {
+				return false
+			}
+		}
 	}
 	return true
+}
+
+var (
+	namePool  = []string{"req", "Req", "rex", "reqs", "REQS", "rq", "lat", "Lat", "q", "i1", "i2", "i.x"}
+	unitPool  = []string{"", "", "ms", "ms", "s", "By"}
+	descPool  = []string{"", "", "", "d1", "d2"}
+	scopePool = [][3]string{{"sA", "", ""}, {"sA", "", ""}, {"sA", "v1", ""}, {"sB", "v2", "u2"}, {"sB", "v2", ""}}
+)
+
+func pick(r *rand.Rand, xs []string) string { return xs[r.Intn(len(xs))] }
+
+// caseVariant flips the letter case of some characters (at least one letter if there is one).
+func caseVariant(r *rand.Rand, s string) string {
+	b := []byte(s)
+	flip := func(i int) {
+		switch {
+		case b[i] >= 'a' && b[i] <= 'z':
+			b[i] -= 32
+		case b[i] >= 'A' && b[i] <= 'Z':
+			b[i] += 32
+		}
+	}
+	flip(r.Intn(len(b)))
+	for i := range b {
+		if r.Intn(3) == 0 {
+			flip(i)
+		}
+	}
+	return string(b)
+}
+
+// patternFor derives a name criterion from an instrument name: exact, everything, prefix / suffix /
+// infix wildcards, one-character wildcards, and near misses.
+func patternFor(r *rand.Rand, name string) string {
+	n := len(name)
+	switch r.Intn(12) {
+	case 0, 1, 2:
+		return name
+	case 3:
+		return "*"
+	case 4:
+		return name[:1+r.Intn(n)] + "*"
+	case 5:
+		return "*" + name[r.Intn(n):]
+	case 6:
+		i := r.Intn(n)
+		return name[:i] + "?" + name[i+1:]
+	case 7:
+		return strings.Repeat("?", n)
+	case 8:
+		return name + "?" // one character too many
+	case 9:
+		i := r.Intn(n)
+		return name[:i] + "*" + name[i:] // * matching the empty string
+	case 10:
+		return name[:1] + "*" + name[n-1:]
+	default:
+		return name[:r.Intn(n)] + "?*"
+	}
 }
 
 func randCfg(r *rand.Rand, keys []string) Cfg {
@@ -858,38 +978,107 @@ func randCfg(r *rand.Rand, keys []string) Cfg {
 			c.Limit = 1 + r.Intn(16)
 		}
 		ni := 1 + r.Intn(3)
+		plain := r.Intn(3) == 0 // a third of the scenarios: distinct plain instruments (the old regime)
 		for i := 0; i < ni; i++ {
-			ic := InstC{Name: fmt.Sprintf("i%d", i+1), Kind: allKinds[r.Intn(len(allKinds))], Num: []string{"i", "f"}[r.Intn(2)]}
+			ic := InstC{Name: fmt.Sprintf("i%d", i+1), Kind: allKinds[r.Intn(len(allKinds))], Num: []string{"i", "f"}[r.Intn(2)], SN: "c12"}
+			if !plain {
+				sc := scopePool[r.Intn(len(scopePool))]
+				ic.Name, ic.Unit, ic.Desc = pick(r, namePool), pick(r, unitPool), pick(r, descPool)
+				ic.SN, ic.SV, ic.SU = sc[0], sc[1], sc[2]
+				if i > 0 && r.Intn(3) == 0 { // a sibling: same instrument except for one identifying field
+					ic = c.Insts[r.Intn(i)]
+					switch r.Intn(5) {
+					case 0:
+						ic.Name = caseVariant(r, ic.Name)
+					case 1:
+						ic.Unit = pick(r, unitPool)
+					case 2:
+						ic.Desc = pick(r, descPool)
+					case 3:
+						sc := scopePool[r.Intn(len(scopePool))]
+						ic.SN, ic.SV, ic.SU = sc[0], sc[1], sc[2]
+					default:
+						ic.Num = []string{"i", "f"}[r.Intn(2)]
+					}
+				}
+			}
 			if i > 0 && r.Intn(6) == 0 { // the same instrument requested twice
 				ic = c.Insts[r.Intn(i)]
 			}
 			c.Insts = append(c.Insts, ic)
 		}
 		nv := 0
-		if r.Intn(4) > 0 {
+		if r.Intn(5) > 0 {
 			nv = 1 + r.Intn(3)
 		}
 		for j := 0; j < nv; j++ {
 			v := ViewC{Filt: Filt{Keep: []string{}}}
 			target := c.Insts[r.Intn(len(c.Insts))]
-			switch r.Intn(5) {
+			// ---- selection criteria
+			switch r.Intn(8) {
 			case 0:
 				v.MName = "*"
 			case 1:
 				v.MKind = target.Kind
 			case 2:
 				v.MName, v.MKind = target.Name, target.Kind
-			default:
+			case 3, 4:
 				v.MName = target.Name
+			default:
+				v.MName = patternFor(r, target.Name)
 			}
-			if v.MName != "*" && v.MName != "" && r.Intn(3) == 0 {
-				v.Name = fmt.Sprintf("r%d", 1+r.Intn(2))
+			if r.Intn(3) == 0 { // unit criterion: the target's or another one
+				v.MUnit = target.Unit
+				if r.Intn(3) == 0 {
+					v.MUnit = pick(r, unitPool)
+				}
 			}
-			if v.MName == "*" || v.MName == "" {
-				// may match instruments of several kinds: only aggregations every kind accepts
-				v.Agg = []string{"", "default", "hist", "expo", "drop"}[r.Intn(5)]
+			if v.MKind == "" && r.Intn(4) == 0 {
+				v.MKind = target.Kind
+				if r.Intn(3) == 0 {
+					v.MKind = allKinds[r.Intn(len(allKinds))]
+				}
+			}
+			if r.Intn(6) == 0 {
+				v.MDesc = nz(target.Desc, pick(r, descPool))
+			}
+			if r.Intn(4) == 0 { // scope criteria
+				sc := [3]string{target.SN, target.SV, target.SU}
+				if r.Intn(3) == 0 {
+					sc = scopePool[r.Intn(len(scopePool))]
+				}
+				switch r.Intn(4) {
+				case 0:
+					v.MSN = sc[0]
+				case 1:
+					v.MSV = sc[1]
+				case 2:
+					v.MSU = sc[2]
+				default:
+					v.MSN, v.MSV, v.MSU = sc[0], sc[1], sc[2]
+				}
+			}
+			// ---- stream mask
+			if !strings.ContainsAny(v.MName, "*?") && r.Intn(3) == 0 {
+				switch r.Intn(4) {
+				case 0:
+					v.Name = target.Name // renamed to its own name
+				case 1:
+					v.Name = caseVariant(r, target.Name)
+				default:
+					v.Name = fmt.Sprintf("r%d", 1+r.Intn(2))
+				}
+			}
+			if r.Intn(6) == 0 {
+				v.Unit = pick(r, unitPool)
+			}
+			if r.Intn(8) == 0 {
+				v.Desc = pick(r, descPool)
+			}
+			if strings.ContainsAny(v.MName, "*?") || v.MName == "" {
+				// may match instruments of several kinds: mostly aggregations every kind accepts
 				if r.Intn(2) == 0 {
-					v.Agg = ""
+					v.Agg = []string{"", "default", "hist", "expo", "drop"}[r.Intn(5)]
 				}
 			} else if r.Intn(2) == 0 {
 				ca := compatAggs(target.Kind)
@@ -903,28 +1092,129 @@ func randCfg(r *rand.Rand, keys []string) Cfg {
 					}
 				}
 			}
-			if j > 0 && r.Intn(6) == 0 { // the same view registered twice
+			if j > 0 && r.Intn(5) == 0 { // the same view again, possibly producing a case variant of its stream name
 				v = c.Views[r.Intn(j)]
+				if v.Name != "" && r.Intn(2) == 0 {
+					v.Name = caseVariant(r, v.Name)
+				}
 			}
 			c.Views = append(c.Views, v)
 		}
-		// kind-criteria views can hit kinds their aggregation does not fit
-		ok := true
-		for _, ic := range c.Insts {
-			for _, s := range streamsOf(c, ic) {
-				fits := false
-				for _, a := range compatAggs(ic.Kind) {
-					if a == s.agg {
-						fits = true
-					}
+		if nv > 0 && nv < 3 && r.Intn(4) == 0 {
+			// a twin: another view that reaches the stream of an existing view for one instrument by a
+			// different route (exact name criterion, stream renamed to a case variant of that stream's name)
+			v := c.Views[r.Intn(nv)]
+			var sel []InstC
+			for _, ic := range c.Insts {
+				if selects(v, ic) {
+					sel = append(sel, ic)
 				}
-				if !fits {
-					ok = false
+			}
+			if len(sel) > 0 {
+				ic := sel[r.Intn(len(sel))]
+				tw := v
+				tw.MName, tw.MKind, tw.MUnit, tw.MDesc, tw.MSN, tw.MSV, tw.MSU = ic.Name, "", "", "", "", "", ""
+				tw.Name = nz(v.Name, ic.Name)
+				if r.Intn(4) > 0 {
+					tw.Name = caseVariant(r, tw.Name)
+				}
+				if r.Intn(2) == 0 {
+					tw.MUnit = ic.Unit
+				}
+				if r.Intn(2) == 0 {
+					c.Views = append(c.Views, tw)
+				} else {
+					c.Views = append([]ViewC{tw}, c.Views...)
 				}
 			}
 		}
-		if ok && conflictFree(c) {
+		if inDomain(c) {
 			return c
+		}
+	}
+}
+
+// countRegimes records which view regimes a random scenario reaches (vacuity counters only).
+func countRegimes(res *vh.Result, c Cfg) {
+	once := map[string]bool{}
+	hit := func(k string) {
+		if !once[k] {
+			once[k] = true
+			res.Count(k, 1)
+		}
+	}
+	for _, v := range c.Views {
+		wildc := strings.ContainsAny(v.MName, "*?")
+		sel, rej := 0, 0
+		for _, ic := range c.Insts {
+			if selects(v, ic) {
+				sel++
+			} else if v.MName == "" || wild(v.MName, ic.Name) {
+				rej++ // the name fits, another criterion rejects
+			}
+		}
+		if wildc {
+			hit("scenarios_wildcard_view")
+		}
+		if wildc && (v.MUnit != "" || v.MKind != "" || v.MSN != "" || v.MSV != "" || v.MSU != "" || v.MDesc != "") {
+			hit("scenarios_wildcard_and_other_criterion")
+			if rej > 0 {
+				hit("scenarios_wildcard_name_fits_other_criterion_rejects")
+			}
+		}
+		if !wildc && rej > 0 {
+			hit("scenarios_exact_name_fits_other_criterion_rejects")
+		}
+		if v.MUnit != "" {
+			hit("scenarios_unit_criterion")
+		}
+		if v.MSN != "" || v.MSV != "" || v.MSU != "" {
+			hit("scenarios_scope_criterion")
+		}
+		if sel > 1 {
+			hit("scenarios_view_selects_several")
+		}
+	}
+	names := map[string]map[string]bool{}
+	for _, ic := range c.Insts {
+		n, ids, raw := 0, map[string]bool{}, map[string]bool{}
+		for _, v := range c.Views {
+			if selects(v, ic) {
+				n++
+				raw[nz(v.Name, ic.Name)] = true
+			}
+		}
+		for _, st := range streamsOf(c, ic) {
+			ids[st.id] = true
+			nm := strings.SplitN(st.id, "\x00", 2)[0] + "|" + ic.SN + "|" + ic.SV + "|" + ic.SU
+			if names[nm] == nil {
+				names[nm] = map[string]bool{}
+			}
+			names[nm][st.id] = true
+		}
+		if n >= 2 {
+			hit("scenarios_instrument_selected_by_several_views")
+			if len(ids) < n {
+				hit("scenarios_views_with_identical_streams")
+			}
+			if len(ids) >= 2 {
+				hit("scenarios_views_with_distinct_streams")
+			}
+			if len(raw) > len(ids) {
+				hit("scenarios_case_variant_stream_names_one_identity")
+			}
+		}
+	}
+	for _, ids := range names {
+		if len(ids) > 1 {
+			hit("scenarios_same_name_distinct_streams")
+		}
+	}
+	for x, a := range c.Insts {
+		for y, b := range c.Insts {
+			if x < y && a != b && strings.EqualFold(a.Name, b.Name) {
+				hit("scenarios_sibling_instruments")
+			}
 		}
 	}
 }
@@ -1071,6 +1361,7 @@ func random(args []string) {
 				break
 			}
 		}
+		countRegimes(res, cfg)
 		if sc < 2 {
 			res.Sample(map[string]any{"cfg": cfg, "sets": np})
 		}
